@@ -226,6 +226,8 @@ func checkC14(rc *Run) error {
 	for _, ec := range []extraCase{
 		{"props:continuation-with-crlf", "k1=b\\\r\n  c\r\nk2=e\r\n", `{"k1":"bc","k2":"e"}`, []string{"-p=props", "-o=json", "-I0", "."}, nil},
 		{"props:continuation-with-lf", "k1=b\\\n  c\nk2=e\n", `{"k1":"bc","k2":"e"}`, []string{"-p=props", "-o=json", "-I0", "."}, nil},
+		// an element's namespace prefix is part of its name, as an attribute's is
+		{"xml:element-namespace-prefix", "<r xmlns:x=\"u\"><x:a>1</x:a><a>2</a></r>\n", `{"r":{"+@xmlns:x":"u","x:a":"1","a":"2"}}`, []string{"-p=xml", "-o=json", "-I0", "."}, nil},
 		// a TOML table without entries is a table
 		{"toml:empty-table", "[a]\n[b]\nx=1\n", `{"a":{},"b":{"x":1}}`, []string{"-p=toml", "-o=json", "-I0", "."}, nil},
 		{"toml:empty-subtable", "[a.b]\n[a.c]\nx=1\n", `{"a":{"b":{},"c":{"x":1}}}`, []string{"-p=toml", "-o=json", "-I0", "."}, nil},
